@@ -24,6 +24,8 @@ View == <<cfg, live, index, forked, nops, IF hist = <<>> THEN "" ELSE hist[Len(h
 \* also reached through a change-set where another history reaches it through single insertions (per-layer counters and
 \* other hidden implementation state may differ)
 ViewKinds == <<cfg, live, index, forked, nops, [k \in 1..Len(hist) |-> <<hist[k].op, hist[k].h>>]>>
+\* every ORDER of the operations is a state of its own (tree shapes and bucket creation order depend on the insertion order)
+ViewOrder == <<cfg, live, index, forked, nops, [k \in 1..Len(hist) |-> <<hist[k].op, hist[k].h, hist[k].rules, hist[k].ids>>]>>
 
 Handles == {1, 2}
 Exists(h) == h = 1 \/ forked
